@@ -105,6 +105,9 @@ func (t *Tape) Draw(n int, gen func(r *Rand) int) int {
 			v = 0
 		}
 	}
+	if len(t.Rec) > 4000000 {
+		panic("dsim: tape runaway (more than 4 000 000 draws in one run): a generator loop is not terminating")
+	}
 	t.Rec = append(t.Rec, uint32(v))
 	return v
 }
